@@ -69,11 +69,11 @@ fn main() {
                     String::new()
                 } else {
                     // commands that talk to real sockets or play long scripts get six times the limit of pure codec cases
-                    let slow = line.starts_with("NET") || line.starts_with("TLS") || line.starts_with("RECONN") || line.starts_with("CL ")
+                    let slow = line.starts_with("NET") || line.starts_with("TLS") || line.starts_with("RECONN") || line.starts_with("CLRST") || line.starts_with("CL ")
                         || line.starts_with("SV") || line.starts_with("SD") || line.starts_with("SE");
                     slow_case.store(slow, std::sync::atomic::Ordering::SeqCst);
                     // an exhaustive sweep of 2^26 values per line is long by design: not watched
-                    let watched = !line.starts_with("SWEEP32");
+                    let watched = !(line.starts_with("SWEEP32") || line.starts_with("SVBIG"));
                     started.store(if watched { t0.elapsed().as_millis() as u64 + 1 } else { 0 }, std::sync::atomic::Ordering::SeqCst);
                     let r = codec::handle(&mut st, &line);
                     started.store(0, std::sync::atomic::Ordering::SeqCst);
